@@ -24,7 +24,15 @@ def frepr(x):
     return repr(float(x))
 
 
+SPECIAL = ['nan', 'inf', '-inf', 'NaN', '1e5', '0x1F', 'TB0Z', 'tb0z', 'None', 'True', ';', 'a;b', '-0', 'int',
+           'char', 'struct', 'enum', '1.', '.5', '+1', '1e400', 'E', 'c00q', '0', '00', '{', 'x{y']
+
+
 def rstr(r, maxlen, header=False):
+    if r.random() < 0.12:
+        sp = [x for x in SPECIAL if len(x) <= maxlen and not x.startswith('{')]
+        if sp:
+            return r.choice(sp)
     n = min(r.choice([0, 0, 1, 2, 3, maxlen, maxlen]), maxlen)
     s = ''.join(r.choice(ALPH) for _ in range(n))
     if s.startswith('{'):
@@ -112,9 +120,10 @@ def gen_tables(r, external=False):
                 else:
                     enum_used = True
                     col['enum'] = ['ENUMQ7', ['EAA', 'EB', 'ECCCC'][:r.randint(2, 3)]]
+            wide = r.random() < 0.06       # long lines: wide arrays, long strings
             if kind == 'S':
-                col['n'] = r.randint(1, 8)
-            arr = r.choice([0, 0, 0, 1, 2, 4])
+                col['n'] = r.randint(1, 8) if not wide else r.randint(20, 60)
+            arr = r.choice([0, 0, 0, 1, 2, 4]) if not wide else r.choice([12, 30, 64])
             if arr and kind != 'E':
                 col['len'] = arr
             cols.append(col)
@@ -145,6 +154,8 @@ def generate(seed, tier='quick'):
     clock = {'start': day*86400.0 + r.choice([0.0, 86399.0, 86399.5, r.uniform(0, 86400)]),
              'ticks': [r.choice([0.0, 0.0, 0.001, 0.5, 1.0, 61.0]) for _ in range(3)]}
     start = r.choice(['writer', 'writer', 'writer', 'normal', 'raw', 'external-normal', 'external-raw'])
+    if r.random() < 0.1:
+        clock['start'] = r.choice([1798761599.0, 1830297599.5, 951868799.0, 4102444799.0, 253402300700.0])
     tables = gen_tables(r, external=start.startswith('external'))
     hdr = [['k%dw' % i, rstr(r, 6, header=True)] for i in range(r.randint(0, 4))]
     comments0 = r.choice(COMMENTS)
@@ -154,11 +165,18 @@ def generate(seed, tier='quick'):
     weights = {op: r.choice([0, 1, 1, 2, 4]) for op in OPS}
     weights['append_rows'] = max(weights['append_rows'], 1)
     nsteps = r.randint(3, 14)
+    long_history = r.random() < 0.08
+    if long_history:
+        nsteps = r.randint(20, 40)
+        weights['append_rows'] = 8
     steps = []
     nf = 1
     nx = 0
     npair = 0
     names = ['f0.par']
+    # keys that collide with nothing by the rules of the format but look like they might
+    specials = ['struct', 'enum', 'c00q', 'TB0', 'filename', 'raw', 'typedef_', 'tb0zz', 'char', 'k0']
+    r.shuffle(specials)
     population = [op for op in OPS for _ in range(weights[op])]
     for s in range(nsteps):
         op = r.choice(population)
@@ -167,11 +185,15 @@ def generate(seed, tier='quick'):
                   'form': r.choice(['lists', 'recarray']), 'symbols': r.random() < 0.15}
             if op in ('append_rows', 'append_mixed'):
                 for ti in r.sample(range(len(tables)), r.randint(1, min(2, len(tables)))):
+                    nadd = r.randint(1, 3) if r.random() < 0.97 else r.choice([17, 40, 130])
                     st['rows'][str(ti)] = [[rcell(r, c) for c in tables[ti]['columns']]
-                                           for _ in range(r.randint(1, 3))]
+                                           for _ in range(nadd)]
             if op in ('append_pairs', 'append_mixed'):
                 for _ in range(r.randint(1, 2)):
-                    if r.random() < 0.2:
+                    u = r.random()
+                    if u < 0.06 and specials:
+                        st['pairs'].append([specials.pop(), rstr(r, 6, header=True)])
+                    elif u < 0.25:
                         st['pairs'].append(['wk%dw' % npair, r.choice(WILD)])
                     else:
                         st['pairs'].append(['nk%dw' % npair, rstr(r, 6, header=True)])
@@ -234,5 +256,5 @@ def generate(seed, tier='quick'):
             nx += 1
     return {'property': 'C03', 'seed': seed, 'clock': clock, 'tables': tables, 'hdr': hdr,
             'start': start, 'comments': comments0, 'style': style, 'eol': eol,
-            'final_newline': final_newline, 'steps': steps[:16],
+            'final_newline': final_newline, 'steps': steps[:48 if long_history else 16],
             'weights': weights}
